@@ -1,6 +1,7 @@
 package operationparser
 
 import (
+	"errors"
 	"fmt"
 
 	"github.com/trustbloc/sidetree-go/pkg/api/operation"
@@ -31,6 +32,10 @@ func (p *Parser) GetCommitment(opBytes []byte) (string, error) {
 
 	switch op.Type { //nolint:exhaustive
 	case operation.TypeUpdate:
+		if op.Delta == nil {
+			return "", errors.New("get commitment - update operation is missing delta")
+		}
+
 		return op.Delta.UpdateCommitment, nil
 
 	case operation.TypeDeactivate:
